@@ -327,6 +327,16 @@ def search(ctx):
         cases.append((e, keys))
     # corpus of past failures first
     cases = [(sympy.Float(2.5) * xs[0], ["foo"]), (bar(xs[0]) + baz(xs[1]), ["foo", "bar", "baz"]), (sympy.Float(-0.75) + xs[1], ["foo"])] + cases
+    # constructs the converter cannot represent, each in a supported context and with operands that take both signs: it must raise
+    # (the model does); if the real converter accepts one, the value at sign-changing points decides whether the meaning was altered
+    x_, y_, z_ = xs
+    unsupported = [sympy.Mod(x_, 3), sympy.Mod(x_ * y_ - 1, y_ + 2), sympy.Mod(-x_, sympy.Rational(3, 2)), sympy.Abs(x_ - y_), sympy.sign(x_ * y_),
+                   sympy.exp(x_ / 3), sympy.log(x_ * x_ + 1), sympy.floor(2 * x_), sympy.ceiling(y_ - x_), sympy.Max(x_, y_), sympy.Min(x_, -z_),
+                   sympy.Piecewise((x_, x_ < y_), (y_, True)), sympy.asin(x_ / 4), sympy.acos(y_ / 4), sympy.sinh(x_), sympy.pi * x_, sympy.E + y_,
+                   sympy.Heaviside(x_ - y_), sympy.atan2(x_, y_), sympy.re(x_) if hasattr(sympy, "re") else sympy.Abs(x_)]
+    wrap = [lambda u: u, lambda u: 1 + 2 * u, lambda u: sympy.sin(u) * y_, lambda u: (u + z_) ** 2]
+    unsup_cases = [(wrap[(i + j) % 4](u), ["foo"]) for i, u in enumerate(unsupported) for j in range(2)]
+    cases = cases[:3] + unsup_cases + cases[3:]
     lines = ["s2c %s %s" % (",".join(k), s_read(e)) for e, k in cases]
     replies = lean_replies(lines)
     for (e, keys), rep in zip(cases, replies):
@@ -346,6 +356,20 @@ def search(ctx):
         if (rep == "ERR") != (err is not None):
             st["model_mismatch"] += 1
             ctx.fail("tie:s2c:error-agreement", "correspondence", dict(inp, model=rep[:80], real_error=err))
+            if err is None:
+                # accepted although the model rejects it: was the expression altered?  compare values where operands change sign
+                try:
+                    names = sorted(symtab)
+                    fn = ca.Function("f", [symtab[k] for k in names], [ca.SX(c_real)])
+                    for pt in ({"x": -1.0, "y": 0.7, "z": 0.3}, {"x": 1.3, "y": -2.2, "z": -0.4}, {"x": -2.6, "y": -0.9, "z": 1.1}, {"x": 0.4, "y": 1.9, "z": -1.5}):
+                        v_real = float(fn.call([pt[k] for k in names])[0])
+                        v_src = complex(sympy.N(e.subs({sy: sympy.Float(pt[sy.name]) for sy in xs})))
+                        if math.isfinite(v_real) and abs(v_src.imag) < 1e-12 and not close(v_real, v_src.real, 1e-8):
+                            report("s2c:unsupported-altered", "sympy_to_casadi accepts a construct it cannot represent and alters its value instead of raising",
+                                   dict(inp, point=pt, casadi=v_real, sympy=v_src.real), abs(v_real - v_src.real), 1e-8)
+                            break
+                except Exception:   # noqa: BLE001
+                    pass
             continue
         if err is not None:
             st["s2c_rejected"] += 1     # any exception is "an error instead of an altered expression"
